@@ -103,6 +103,15 @@ def gen_literals(quick, seed):
                 nums.add(str(v))
                 if not quick:
                     nums.add("0X" + hex(v)[2:].upper())
+    # leading zeros never change the base: zero-padded decimal integers within and beyond int64, made of the digits 0-7 only
+    # (what an octal reading would accept) and with an 8 or 9 among them, also zero-padded fractions and exponents
+    for body in ["1000000000000000000000", "777777777777777777777777", "12345670123456701234567", "9223372036854775808", "1000000000000000000008",
+                 "7", "17", "777", "9223372036854775807", "1234567", "100", "10"]:
+        for pad in ("0", "00", "0000"):
+            nums.add(pad + body)
+    nums |= {"01.5", "00.5", "01e2", "0010e-1", "0001", "000", "0e5", "00e0"}
+    for _ in range(20 if quick else 300):
+        nums.add("0" * rng.randint(1, 3) + "".join(rng.choice("01234567") for _ in range(rng.randint(1, 30))))
     for s in sorted(nums):
         add("num", B(s), "numeric literal")
     import itertools as _it
